@@ -1,0 +1,17 @@
+//go:build verif
+
+// Contracts for package datatransfer (comment-only; compiled only with -tags verif).
+// Checked by /verif (contract-based deductive verification); see /verif/DESIGN.md.
+package datatransfer
+
+//@ interface ChannelState
+//@   pure TransferID, BaseCID, Selector, Voucher, Sender, Recipient, TotalSize, IsPull, ChannelID, OtherPeer
+//@   pure SelfPeer, Status, Sent, Received, Queued, Message, Vouchers, LastVoucher, LastVoucherResult
+//@   pure VoucherResults, ReceivedCidsTotal, QueuedCidsTotal, SentCidsTotal, Stages, DataLimit
+//@   pure RequiresFinalization, InitiatorPaused, ResponderPaused, BothPaused, SelfPaused
+
+//@ func (datatransfer.ValidationResult).LeaveRequestPaused {C08,C11}
+//@   requires [snapshot] chst != nil
+//@   ensures [resume-rule] result == (vr.ForcePause ||
+//@       (vr.RequiresFinalization && chst.Status().InFinalization()) ||
+//@       (vr.DataLimit != 0 && (chst.IsPull() ? chst.Queued() : chst.Received()) >= vr.DataLimit))
